@@ -516,10 +516,61 @@ func TestC07Grid(t *testing.T) {
 			}
 		}
 	}
+	// VV kernels: every length x carry/borrow chain that dies at every position x aliasing shape
+	for _, k := range []string{"add10VV", "sub10VV"} {
+		for l := 0; l <= 70; l++ {
+			for stop := 0; stop <= l; stop += 1 + l/12 {
+				x, y := make([]uint64, l), make([]uint64, l)
+				for i := range x {
+					switch {
+					case i == 0 && stop > 0 && k == "add10VV":
+						x[i], y[i] = h.Base-1, 1 // generates a carry ...
+					case i < stop && k == "add10VV":
+						x[i], y[i] = h.Base-1, 0 // ... that propagates
+					case i == 0 && stop > 0:
+						x[i], y[i] = 0, 1 // generates a borrow ...
+					case i < stop:
+						x[i], y[i] = 0, 0 // ... that propagates
+					default:
+						x[i], y[i] = next()%(h.Base/2), next()%(h.Base/2)
+					}
+				}
+				for _, sh := range []string{"", "inplace", "inplace-y"} {
+					for _, ext := range []int{0, 2} {
+						runCase(C07Case{K: k, X: x, Y: y, Shape: sh, Ext: ext})
+					}
+				}
+			}
+		}
+	}
+	// scalar-by-vector kernels: every length with extreme words and scalars
+	for l := 0; l <= 70; l++ {
+		for _, w := range []uint64{0, 1, h.Base - 1, h.Base / 2, 9} {
+			x, z := make([]uint64, l), make([]uint64, l)
+			for i := range x {
+				switch (i + int(w)) % 3 {
+				case 0:
+					x[i], z[i] = h.Base-1, h.Base-1
+				case 1:
+					x[i], z[i] = next(), next()
+				default:
+					x[i], z[i] = 0, h.Base-1
+				}
+			}
+			for _, sh := range []string{"", "inplace"} {
+				runCase(C07Case{K: "mulAdd10VWW", X: x, W: w, W2: h.Base - 1 - w%7, Shape: sh})
+				if w > 0 {
+					runCase(C07Case{K: "div10VWW", X: x, W: w, W2: w - 1, Shape: sh})
+					runCase(C07Case{K: "div10VWW", X: x, W: w, W2: 0, Shape: sh})
+				}
+			}
+			runCase(C07Case{K: "addMul10VVW", X: x, Y: z, W: w})
+		}
+	}
 	h.AddExtra("C07", "grid_cases_enumerated", n)
 }
 
-const ruleC07 = "kernel half: rapid-generated calls of the 12 decimal kernels and divWVW through the hook exports, within the call-site preconditions only (words < 10^19, dividend high word < divisor, shift 0..18): vector lengths 0..70 (all residues mod 4, the >=5-word copy fast paths), words from {0,1,10^19-1,5*10^18,10^k,10^k-1,2^32,2^63-1,...} in runs plus uniform, low-end carry/borrow chains with a chosen terminator position, scalar operands from the same sets, destination fresh (poisoned), equal to x, equal to y, or overlapping x inside one array the way dec.shl/dec.shr call it. Oracle: assembly output == portable twin output (vector and carry/borrow/remainder) and both == the big.Int definition. The grid shift 0..18 x length 0..70 x {fresh, in place, overlap 1, overlap 3} for shl/shr and length x carry-dies-at x {fresh, in place} for add10VW/sub10VW is enumerated completely on every run. Non-trivial = length >= 5, or shift != 0, or an aliased destination. Program half: see samples of kind 'program' (same public operation sequence executed by three builds: default, decimal_pure_go, decimal_pure_go+math_big_pure_go; per-step snapshots compared)."
+const ruleC07 = "kernel half: rapid-generated calls of the 12 decimal kernels and divWVW through the hook exports, within the call-site preconditions only (words < 10^19, dividend high word < divisor, shift 0..18): vector lengths 0..70 (all residues mod 4, the >=5-word copy fast paths), words from {0,1,10^19-1,5*10^18,10^k,10^k-1,2^32,2^63-1,...} in runs plus uniform, low-end carry/borrow chains with a chosen terminator position, scalar operands from the same sets, destination fresh (poisoned), equal to x, equal to y, or overlapping x inside one array the way dec.shl/dec.shr call it. Oracle: assembly output == portable twin output (vector and carry/borrow/remainder) and both == the big.Int definition. Enumerated completely on every run: shift 0..18 x length 0..70 x {fresh, in place, overlap 1, overlap 3} for shl/shr; length 0..70 x carry-dies-at-every-position x {fresh, in place} for add10VW/sub10VW; length x carry/borrow chain x {fresh, in place x, in place y} x {equal length, longer sources} for add10VV/sub10VV; length 0..70 x extreme scalars for mulAdd10VWW/addMul10VVW/div10VWW. Non-trivial = length >= 5, or shift != 0, or an aliased destination. Program half: see samples of kind 'program' (same public operation sequence executed by three builds: default, decimal_pure_go, decimal_pure_go+math_big_pure_go; per-step snapshots compared)."
 
 var propC07 = &h.Prop[C07Case]{ID: "C07", Rule: ruleC07, Gen: genC07, Check: checkC07, Matchers: map[string]func(C07Case) bool{},
 	Filter: func(path string) bool { return !strings.Contains(path, "prog-") }}
